@@ -114,6 +114,14 @@ func Replace(fn string, spec interface{}) {}
 // CutLoop installs a loop invariant cut under gosym; natively a no-op.
 func CutLoop(fn string, loop int, inv interface{}) {}
 
+// RunLoopBody executes one iteration of a loop of the named function from an
+// arbitrary state of its loop variables (gosym only; the path ends there).
+func RunLoopBody(fn string, loop int, inv interface{}) {}
+
+// KernelCoverage asserts (gosym only) that the assembly-kernel calls made on
+// abstract buffers partition [0, total).
+func KernelCoverage(total int) {}
+
 // GFMul is the specification of multiplication in GF(2^16) mod 0x1100B
 // (carry-less product, then reduction); under gosym it is the SMT-LIB gfmul.
 func GFMul(a, b uint16) uint16 {
